@@ -59,6 +59,7 @@ func flattenGenOpts(i int) GenOpts {
 	if i%10 == 7 {
 		o.AllKeywords = true
 	}
+	o.Decor = i%2 == 0 // patterns / enums / headers: indexed by the analyzer under pointers that Flatten moves (C10)
 	return o
 }
 
